@@ -340,6 +340,32 @@ def _offset_case(rng, tier, idx, ty, n, nq):
                      'coordinate_over_spacing': float('%.3g' % ratio)}}
 
 
+def _tiny_case(rng, tier, idx, ty, n, nq):
+    """the whole set spans 1e-6 .. 5e-5 coordinate units (lat/lon in degrees, kilometre units): the point spacing is far below any
+    absolute 'epsilon' a split or pruning rule might compare lengths with (seeded change c08c: `if (max_elem - min_elem < EPS)` in
+    middleSplit_, EPS = 1e-5 being a RELATIVE factor elsewhere), while relative to the set everything is ordinary"""
+    cd = _cdim(ty)
+    f32 = ty[2] == 'f'
+    T = S if f32 else D
+    pts, kind, spacing, origin, extent = _gen_offset_points(rng, n, cd, f32)
+    mins = [min(p[c] for p in pts) for c in range(cd)]
+    ext = max(max(p[c] for p in pts) - mins[c] for c in range(cd)) or 1.0
+    f = 10.0 ** -rng.uniform(4.3, 6.0) / ext
+    base = [0.0] * cd if rng.chance(0.5) else [rng.uniform(-1e-3, 1e-3) for _ in range(cd)]
+    rnd = to_f32 if f32 else (lambda x: x)
+    pts = [[rnd(base[c] + (p[c] - mins[c]) * f) for c in range(cd)] for p in pts]
+    lines = ['kd.build %s %d %s' % (ty, n, ' '.join(T(x) for p in pts for x in p))]
+    kmax = min(n, 50)
+    for q in _inside_queries(rng, pts, cd, f32, spacing * f, nq):
+        qt = ' '.join(T(x) for x in q)
+        if rng.below(10) < 4:
+            lines.append('kd.nn ' + qt)
+        else:
+            lines.append('kd.knn %d %s' % (rng.choice([1, kmax, rng.int(1, kmax), min(kmax, 10)]), qt))
+    return {'name': 'kd-%s-tiny-%s-n%d-%d' % (ty, kind, n, idx), 'lines': lines,
+            'meta': {'type': ty, 'n': n, 'kind': 'tiny-' + kind, 'exact': False, 'offset': False, 'tiny_extent': float('%.3g' % (ext * f))}}
+
+
 def gen_cases(rng, tier):
     cases = []
     if tier == 'quick':
@@ -368,6 +394,11 @@ def gen_cases(rng, tier):
         r = rng.below(10)
         n = rng.int(11, 200) if r < 2 else rng.int(200, 1500) if r < 6 else rng.int(1500, 4000) if r < 9 else rng.choice([5000, rng.int(4000, 5000)])
         cases.append(_offset_case(rng, tier, 3000000 + i, ty, n, 2 * nq if n <= 1500 else nq))
+    # tiny extents (appended last again)
+    for i in range(10 if tier == 'quick' else 160):
+        ty = TYPES[i % 8] if i < 16 else rng.choice(TYPES)
+        n = rng.choice([rng.int(40, 400), rng.int(400, 3000)])
+        cases.append(_tiny_case(rng, tier, 4000000 + i, ty, n, nq))
     return cases
 
 
